@@ -127,10 +127,10 @@ def check(ctx, pairs, tags, what, functional=True, stuck_is_violation=False, kno
     for r in results:
         st = r.get("stats", {})
         dist.append({"scenario": r["scenario"], "seed": r["seed"],
-                     "stats": dict((k, v) for k, v in st.items() if k not in ("ident",)),
+                     "stats": dict((k, v) for k, v in st.items() if k not in ("ident", "rows_per_dump")),
                      "full_dump_agrees": r.get("cr_full") is None and "error" not in r,
                      "projection_agrees": r.get("cr_proj") is None and "error" not in r})
-        nblocks += int(st.get("blocks", st.get("heights", 0)) or 0)
+        nblocks += int(st.get("applied", 0) or 0) + (1 if st.get("failed_at") else 0)
     ctx.coverage["evaluations"] = ctx.coverage.get("evaluations", 0) + nblocks
     ctx.coverage["distinct_nontrivial"] = ctx.coverage.get("distinct_nontrivial", 0) + len(results)
     ctx.coverage["traces_validated_against_impl"] = ctx.coverage.get("traces_validated_against_impl", 0) + len(results)
